@@ -85,7 +85,7 @@ MANIFEST = dict(
 )
 
 IMPORTS = ['Coq.NArith.NArith', 'Coq.ZArith.ZArith', 'Coq.Lists.List', 'Coq.Bool.Bool', 'SV.Fmt.DmxCodes', 'SV.Fmt.DmxBin',
-           'SV.Fmt.DmxMembers', 'SV.Fmt.DmxKv1', 'SV.Fmt.DmxKv1Sel', 'SV.Fmt.DmxScalar', 'SV.Text.Str', 'SV.Text.Tokenizer', 'SV.Text.TokGen', 'SV.Fmt.DmxKv2',
+           'SV.Fmt.DmxMembers', 'SV.Fmt.DmxMembersParse', 'SV.Fmt.DmxKv1', 'SV.Fmt.DmxKv1Sel', 'SV.Fmt.DmxScalar', 'SV.Text.Str', 'SV.Text.Tokenizer', 'SV.Text.TokGen', 'SV.Fmt.DmxKv2',
            'SV.Num.Dec6', 'SV.Fmt.DmxValText', 'SV.Fmt.DmxHeader', 'SV.Gen.DmxCodes_gen', 'SV.Fmt.DmxKv2Inst']
 PRE_BIN = '''Import ListNotations. Open Scope N_scope.
 Definition idenc (_ : enc) (s : str) : bytes := s.
@@ -103,12 +103,21 @@ Definition elem_eqb (a b : elem) := nl_eqb (etype a) (etype b) && nl_eqb (ename 
 Definition odoc_eqb (a b : option doc) := match a, b with Some x, Some y => leqb elem_eqb x y | None, None => true | _, _ => false end.
 (* result code per case: 0 ok, 1 model export differs from implementation bytes, 2 model parse differs,
    3 the export of the real dicts (count expression and loop filters read from the source) differs from the bytes,
-   4 the document the real dicts denote differs from the document the harness computed from the spec and its history *)
-Definition chk (c : N * doc * bytes * option doc * rdoc) : N := let '(v, d, b, p, rd) := c in
+   4 the document the real dicts denote differs from the document the harness computed from the spec and its history,
+   5 the dicts the reader model builds from the parsed document (key expression read from the source) differ from the
+     dicts of the elements Element.parse returned (given when every attribute name is ASCII: casefold = A-Z -> a-z) *)
+Definition ascii_lower (s : str) : str := map (fun c => if (65 <=? c) && (c <=? 90) then c + 32 else c) s.
+Definition members_eqb (a b : members) := leqb (fun x y : str * attr => nl_eqb (fst x) (fst y) && attr_eqb (snd x) (snd y)) a b.
+Definition reader_dicts_ok (p : option doc) (pr : option rdoc) : bool :=
+  match p, pr with
+  | Some pd, Some prd => leqb members_eqb (map (parsed_members ascii_lower (pk_bin gen_parse)) pd) (map r_members prd)
+  | _, _ => true
+  end.
+Definition chk (c : N * doc * bytes * option doc * rdoc * option rdoc) : N := let '(v, d, b, p, rd, pr) := c in
   if nl_eqb (export_bin idenc gen_cfg v d) b
   then (if odoc_eqb (parse_bin iddec gen_cfg v b) p
         then (if nl_eqb (export_raw idenc gen_cfg gen_cnt v rd) b
-              then (if odoc_eqb (Some (map (abstract gen_cnt) rd)) (Some d) then 0 else 4) else 3)
+              then (if odoc_eqb (Some (map (abstract gen_cnt) rd)) (Some d) then (if reader_dicts_ok p pr then 0 else 5) else 4) else 3)
         else 2)
   else 1.
 Fixpoint bad_idx {A} (f : A -> N) (n : N) (l : list A) : list N := match l with [] => [] | x :: r => (if f x =? 0 then [] else [n * 10 + f x]) ++ bad_idx f (n + 1) r end.
@@ -258,14 +267,19 @@ def corr_binary(ck: Ck) -> None:
             ck.hist('corr_binary_name_member', 'missing' if not e['has_name'] else ('first' if not e['name_pos'] else 'later'))
         cut = data.find(b'-->\n\0')
         body = data[cut + 5:]
+        prl = 'None'
         try:
             got, _, _ = dmx.Element.parse(io.BytesIO(data), unicode=(mode['unicode'] == 'silent'))
-            parsed = coq_doc(U.canon(got), 'utf8')
+            cg = U.canon(got)
+            parsed = coq_doc(cg, 'utf8')
             pl = f'(Some {parsed})'
+            if all(e['members'] is not None and all(rec[0].isascii() for _, rec in e['members']) for e in cg['elems']):
+                prl = f'(Some {coq_rdoc(cg, "utf8")})'       # the dicts of the parsed elements, keys included
+                ck.count('corr_binary_reader_dicts')
         except Exception:
             pl = 'None'
             ck.count('corr_binary_impl_parse_error')
-        cases.append((mode, spec, f'({mode["version"]}, {coq_doc(c, "utf8")}, {_nl(body)}, {pl}, {coq_rdoc(real, "utf8")})'))
+        cases.append((mode, spec, f'({mode["version"]}, {coq_doc(c, "utf8")}, {_nl(body)}, {pl}, {coq_rdoc(real, "utf8")}, {prl})'))
         ck.count('corr_binary_cases')
         ck.hist('corr_binary_version', mode['version'])
         if len(c['elems']) > 1 or any(e['attrs'] for e in c['elems']):
@@ -290,7 +304,8 @@ def corr_binary(ck: Ck) -> None:
         ck.extra['binary_disagreement'] = {'mode': cases[i][0], 'spec': cases[i][1],
                                            'kind': {1: 'model export bytes differ', 2: 'model parse differs',
                                                     3: 'export_raw (count expression / loop filters from the source, on the real dicts) differs from the bytes',
-                                                    4: 'the document the real dicts denote differs from the simulated history'}.get(code, code)}
+                                                    4: 'the document the real dicts denote differs from the simulated history',
+                                                    5: 'the dicts the reader model builds (key expression from the source) differ from the dicts of the parsed elements'}.get(code, code)}
 
 
 
@@ -1254,6 +1269,8 @@ def report_failure(ck: Ck, found: dict, spec: dict, mode: dict) -> None:
             cls = U.classify({'elems': [{'type': 'T', 'name': 'n', 'uuid': _U[0], 'attrs': [['a', a[1], a[2], vals]]}]})
         except Exception:
             pass
+    if stage == 'compare' and ' key: stored under ' in (problem or ''):
+        cls = 'attribute-not-found-under-its-name'       # same records, but the parsed dict is keyed inconsistently
     key = f'{mode_class(small, mode)}:{cls}'
     size = sum(len(e['attrs']) + 1 for e in small['elems'])
     if key not in found or size < found[key][3]:
@@ -1355,6 +1372,10 @@ OBLIGATIONS = {
     'attr_record_loop_skips_the_name_key': 'write_filter_ok gen_cnt',
     'collecting_loop_skips_what_the_record_loop_skips': 'collect_filter_ok gen_cnt',
     'element_name_reads_the_name_member': 'name_getter_ok gen_cnt',
+    'binary_reader_stores_attributes_under_casefolded_name': 'keyfn_folded (pk_bin gen_parse)',
+    'kv2_reader_stores_typed_attributes_under_casefolded_name': 'keyfn_folded (pk_kv2_attr gen_parse)',
+    'kv2_reader_stores_inline_elements_under_casefolded_name': 'keyfn_folded (pk_kv2_inline gen_parse)',
+    'new_element_starts_with_the_name_member': 'init_member_ok gen_parse',
     'kv1_element_types_distinct': 'kv1_types_distinct gen_kv1',
     'kv1_keys_written_are_keys_read': 'kv1_keys_agree gen_kv1',
     'kv1_reserved_names_cover_name_and_subkeys': 'kv1_reserved_covers gen_kv1',
@@ -1392,6 +1413,9 @@ EXPLAIN = {
     'instance:attr_record_loop_skips_the_name_key': ['binary', ''],
     'instance:collecting_loop_skips_what_the_record_loop_skips': ['binary', ''],
     'instance:element_name_reads_the_name_member': ['', 'element-without-name-member'],
+    'instance:binary_reader_stores_attributes_under_casefolded_name': ['binary', 'attribute-not-found-under-its-name'],
+    'instance:kv2_reader_stores_typed_attributes_under_casefolded_name': ['kv2', 'attribute-not-found-under-its-name'],
+    'instance:kv2_reader_stores_inline_elements_under_casefolded_name': ['kv2', 'attribute-not-found-under-its-name'],
     'instance:kv1_reserved_test_reads_the_casefolded_name': ['kv1-bridge', 'reserved-leaf-name'],
     'instance:kv1_duplicate_test_reads_the_casefolded_name': ['kv1-bridge', 'duplicate-leaf-names'],
     'instance:kv1_reserved_names_cover_name_and_subkeys': ['kv1-bridge', 'reserved-leaf-name'],
